@@ -55,17 +55,25 @@ def check(ctx, res) -> None:
 
     # ---- R17.3
     g = idx.need_func("rope.refactor.introduce_factory.IntroduceFactory._rename_occurrences")
-    finders = {}
-    for n in walk_local(g.node):
-        if isinstance(n, ast.Assign) and isinstance(n.value, ast.Call) and call_name(n.value) == "create_finder" \
-                and isinstance(n.targets[0], ast.Name):
-            kw = {k.arg: k.value for k in n.value.keywords}
-            finders[n.targets[0].id] = isinstance(kw.get("only_calls"), ast.Constant) and kw["only_calls"].value is True
-    used = [c for c in calls_in(g.node) if call_name(c) == "rename_in_module" and c.args and isinstance(c.args[0], ast.Name)]
+    finders = {}  # local name or "self.<attr>" -> built with only_calls=True?  (the finder may be built once in __init__)
+    owner = g.cls
+    scope_nodes = [g.node] + ([m.node for m in owner.methods.values() if m is not g] if owner is not None else [])
+    for fn in scope_nodes:
+        for n in walk_local(fn):
+            if isinstance(n, ast.Assign) and isinstance(n.value, ast.Call) and call_name(n.value) == "create_finder" and len(n.targets) == 1:
+                kw = {k.arg: k.value for k in n.value.keywords}
+                only = isinstance(kw.get("only_calls"), ast.Constant) and kw["only_calls"].value is True
+                t = n.targets[0]
+                key = t.id if isinstance(t, ast.Name) and fn is g.node else (f"self.{t.attr}" if is_self_attr(t) else None)
+                if key is not None:
+                    finders[key] = finders.get(key, True) and only
+    def fkey(e):
+        return e.id if isinstance(e, ast.Name) else (f"self.{e.attr}" if is_self_attr(e) else None)
+    used = [c for c in calls_in(g.node) if call_name(c) == "rename_in_module" and c.args and fkey(c.args[0]) is not None]
     if not used:
         raise AnalysisError("anchor=introduce_factory rename_in_module(finder, ...) call not found")
     for c in used:
-        ok = finders.get(c.args[0].id) is True
+        ok = finders.get(fkey(c.args[0])) is True
         res.add("R17.3", "_rename_occurrences|finder", ok, f"{g.unit.rel}:{c.lineno}",
                 "the occurrence finder handed to rename_in_module is restricted to calls (only_calls=True)" if ok else
                 "introduce-factory rewrites every occurrence of the class, not only calls: isinstance(x, A) becomes isinstance(x, A.create)")
